@@ -225,3 +225,23 @@ Example C02_ex_observer_run :
   /\ draws (r_final (ex_run (Some (1 # 2)))) = draws (r_final (ex_run None))
   /\ r_stuck (ex_run (Some (1 # 2))) = false.
 Proof. vm_compute. repeat split. Qed.
+
+(* the hypotheses of C02_step hold in the initial state of that run: no posted event, running, two transitions *)
+Example C02_ex_step_hypotheses :
+  let tb := sir_table_until 6 complete3 0 None in
+  let s := setup_state tb ex_rands ex_lns ex_draws in
+  queue s = [] /\ running _ tb 0 s /\ length (transitions tb) = 2%nat /\ length (rands s) = 12%nat.
+Proof. vm_compute. repeat split. Qed.
+
+(* the hypotheses of C02_observers_passive_pending hold for the Monitor in front of SIR: its only posted
+   program (number 2) is [AObserve], and the queue holds only that observation *)
+Example C02_ex_monitor_passive :
+  let tb := sir_table_until 6 complete3 0 (Some (1 # 2)) in
+  closed _ tb (fun k => k = 2%nat) /\ qinv _ (fun k => k = 2%nat) (setup_state tb ex_rands ex_lns ex_draws)
+  /\ length (queue (setup_state tb ex_rands ex_lns ex_draws)) = 1%nat.
+Proof.
+  split; [|split].
+  - intros k -> t e l w. cbn. constructor; [exact I | constructor].
+  - unfold qinv. vm_compute. constructor; [reflexivity | constructor].
+  - vm_compute. reflexivity.
+Qed.
